@@ -81,33 +81,33 @@ func (e *Env) OfType(ts ...T) []*VarInfo {
 
 // Opts selects the language subset and the style of programs.
 type Opts struct {
-	MaxStmts  int
-	MaxDepth  int
-	Stmts     bool // if / while / func / return
-	Computed  bool // &name = expr, &name.attr
-	Templates bool
-	Dice      bool // XdY family terms
-	CoC       bool
-	WoD       bool
-	Fate      bool
-	DC        bool
-	Bitwise   bool
-	Floats    bool
-	Hostile   float64 // probability that an operand ignores the wanted type
-	SideFx    bool    // container mutation, assignment expressions
-	ThisAssign bool   // this.x = v
-	BreakInIf bool   // break/continue inside if inside a loop
-	IdxCompare bool  // x[i] == y style (index directly followed by '=')
-	FullWidth bool   // ＋－＊／
-	NullVars  bool   // reads of undefined variables
+	MaxStmts   int
+	MaxDepth   int
+	Stmts      bool // if / while / func / return
+	Computed   bool // &name = expr, &name.attr
+	Templates  bool
+	Dice       bool // XdY family terms
+	CoC        bool
+	WoD        bool
+	Fate       bool
+	DC         bool
+	Bitwise    bool
+	Floats     bool
+	Hostile    float64 // probability that an operand ignores the wanted type
+	SideFx     bool    // container mutation, assignment expressions
+	ThisAssign bool    // this.x = v
+	BreakInIf  bool    // break/continue inside if inside a loop
+	IdxCompare bool    // x[i] == y style (index directly followed by '=')
+	FullWidth  bool    // ＋－＊／
+	NullVars   bool    // reads of undefined variables
 	// AssignExprAll also uses item / attribute / slice assignments as operands (their value is the assigned value)
 	AssignExprAll bool
 	// SingleKeyDicts keeps every dict at one key at most, so that nothing a program can
 	// observe depends on Go map iteration order (toStr/repr/templates/keys() of a dict).
 	SingleKeyDicts bool
-	StrIndexOOB bool // string literal indexed outside its length ('abc'[5], ''[0])
+	StrIndexOOB    bool // string literal indexed outside its length ('abc'[5], ''[0])
 	IndexThenSlice bool // X[i][a:b]: a slice suffix directly after an index (C02-F04)
-	Extra     bool   // C02: this./&raw reads, load/loadRaw/store, dict methods, functions in containers, nested aliases (extra.go)
+	Extra          bool // C02: this./&raw reads, load/loadRaw/store, dict methods, functions in containers, nested aliases (extra.go)
 	// NoAlias (C09) keeps a container reachable from one place only: no `y = x` for an array/dict variable x and no
 	// container variable as an element of a literal that is stored.  Off (default): nothing changes.
 	NoAlias bool
@@ -115,7 +115,7 @@ type Opts struct {
 	DiceBoost    float64 // probability that an int expression node is a randomness term (dice / random array method)
 	RandMethods  bool    // shuffle / rand / randSize (only where the oracle is seed replay)
 	DefaultSides bool    // dice without a sides operand (Xd, d, d优势): sides come from Config.DefaultDiceSideExpr
-	Avoid     func(string) bool
+	Avoid        func(string) bool
 }
 
 func DefaultOpts() Opts {
